@@ -23,13 +23,14 @@ type C07Elem struct {
 }
 
 type C07Case struct {
-	Client string    `json:"client"` // streamable-json streamable-sse streamable-get legacy stdio
-	Script []C07Elem `json:"script"` // what the server emits in reaction to the affected call ("valid" = the valid answer)
-	Extra  int       `json:"extra"`  // other calls pending at the same time (answered normally)
+	Client string    `json:"client"`        // streamable-json streamable-sse streamable-get legacy stdio
+	Script []C07Elem `json:"script"`        // what the server emits in reaction to the affected call ("valid" = the valid answer)
+	Extra  int       `json:"extra"`         // other calls pending at the same time (answered normally)
+	Pad    int       `json:"pad,omitempty"` // bytes of padding in the affected call's arguments (the valid answer echoes them)
 }
 
 var c07Junk = []string{"comment", "blank", "nonjson", "notification", "unknown-request", "unknown-id", "id-bool", "id-object", "id-string", "no-result", "both", "giant", "garbage", "bom", "cr-valid",
-	"unknown-event", "endpoint-again", "multiline-valid", "empty-data", "huge-id", "truncated", "null", "array", "valid-again", "valid-again", "valid-again"}
+	"unknown-event", "endpoint-again", "multiline-valid", "empty-data", "huge-id", "truncated", "null", "array", "ctl-id", "giant", "valid-again", "valid-again", "valid-again"}
 
 func genC07(t *rapid.T) C07Case {
 	c := C07Case{Client: rapid.SampledFrom([]string{"streamable-json", "streamable-sse", "streamable-get", "legacy", "legacy", "stdio", "stdio"}).Draw(t, "client")}
@@ -56,11 +57,12 @@ func genC07(t *rapid.T) C07Case {
 		}
 		e := C07Elem{Kind: k}
 		if k == "giant" {
-			e.N = rapid.SampledFrom([]int{70000, 300000, 1 << 20}).Draw(t, "giantsize")
+			e.N = rapid.SampledFrom([]int{600, 5000, 70000, 300000, 1 << 20}).Draw(t, "giantsize")
 		}
 		c.Script = append(c.Script, e)
 	}
 	c.Extra = rapid.IntRange(0, 3).Draw(t, "extra")
+	c.Pad = rapid.SampledFrom([]int{0, 0, 0, 3000, 200000}).Draw(t, "pad")
 	return c
 }
 
@@ -141,6 +143,9 @@ func c07SSE(script []C07Elem, legacy bool) string {
 			b.WriteString(ev + "data: {{valid-a}}\ndata: {{valid-b}}\n\n")
 		case "empty-data":
 			b.WriteString(ev + "data:\n\n")
+		case "ctl-id":
+			// an event id no HTTP header can carry (the client echoes ids as Last-Event-ID)
+			b.WriteString(ev + "id: a\x01b\x7f\ndata: " + C07Elem{Kind: "notification"}.frame() + "\n\n")
 		default:
 			if f := e.frame(); f != "" {
 				b.WriteString(ev + "id: e\ndata: " + f + "\n\n")
@@ -162,7 +167,7 @@ func c07Lines(script []C07Elem) string {
 			b.WriteString("\xEF\xBB\xBF\n")
 		case "cr-valid":
 			b.WriteString("{{valid}}\r\n")
-		case "unknown-event", "endpoint-again", "empty-data":
+		case "unknown-event", "endpoint-again", "empty-data", "ctl-id":
 			b.WriteString("event: endpoint\n")
 		case "multiline-valid":
 			b.WriteString("{{valid-a}}\n{{valid-b}}\n")
@@ -186,10 +191,23 @@ func hasValid(script []C07Elem) bool {
 
 const c07ValidText = `echo:{"a":1}`
 
-func callEcho(ctx context.Context, cl mcp.Connector) (string, error) {
+func callEcho(ctx context.Context, cl mcp.Connector) (string, error) { return callEchoPad(ctx, cl, 0) }
+
+// c07ValidTextPad is the valid answer to callEchoPad.
+func c07ValidTextPad(pad int) string {
+	if pad == 0 {
+		return c07ValidText
+	}
+	return `echo:{"a":1,"pad":"` + strings.Repeat("p", pad) + `"}`
+}
+
+func callEchoPad(ctx context.Context, cl mcp.Connector, pad int) (string, error) {
 	req := &mcp.CallToolRequest{}
 	req.Params.Name = "echo"
 	req.Params.Arguments = map[string]interface{}{"a": 1}
+	if pad > 0 {
+		req.Params.Arguments["pad"] = strings.Repeat("p", pad)
+	}
 	res, err := cl.CallTool(ctx, req)
 	if err != nil {
 		return "", err
@@ -206,7 +224,7 @@ func execC07(c C07Case) *Failure { return runC07WithFake(c, nil) }
 
 // runC07WithFake runs the C07 oracle; a non-nil preset (HTTP clients only) replaces the scripted peer built from c.Script.
 func runC07WithFake(c C07Case, preset *FakeServer) *Failure {
-	where := fmt.Sprintf("%s script %v extra=%d", c.Client, scriptNames(c.Script), c.Extra)
+	where := fmt.Sprintf("%s script %v extra=%d pad=%d", c.Client, scriptNames(c.Script), c.Extra, c.Pad)
 	var cl mcp.Connector
 	var fake *FakeServer
 	var affected atomic.Bool // the next tools/call is the affected one
@@ -224,6 +242,13 @@ func runC07WithFake(c C07Case, preset *FakeServer) *Failure {
 	case "stdio":
 		dir, _ := os.MkdirTemp("", "c07")
 		defer os.RemoveAll(dir)
+		// the caller that got its answer cleans up while the reader is between looking up and delivering a repeated answer
+		mcp.VerifSetYield(func(point string) {
+			if point == "stdio-client:response-looked-up" {
+				time.Sleep(300 * time.Microsecond)
+			}
+		})
+		defer mcp.VerifSetYield(nil)
 		// the child plays the script on the 1st tools/call; calls are numbered so "extra" calls come later
 		plan := map[string][]FakeAction{"request:tools/call": {{Kind: "raw", Raw: c07Lines(c.Script)}}}
 		cfg := mcp.StdioTransportConfig{ServerParams: ChildCommand(ChildSpec{Role: "fake", Log: filepath.Join(dir, "log"), Plan: plan}), Timeout: LongWait()}
@@ -299,7 +324,7 @@ func runC07WithFake(c C07Case, preset *FakeServer) *Failure {
 	go func() {
 		ctx, cancel := context.WithTimeout(context.Background(), Bound()*2)
 		defer cancel()
-		t, err := callEcho(ctx, cl)
+		t, err := callEchoPad(ctx, cl, c.Pad)
 		ares <- res{t, err}
 	}()
 	if c.Client == "stdio" {
@@ -329,13 +354,13 @@ func runC07WithFake(c C07Case, preset *FakeServer) *Failure {
 		return TimingFailf("C07/call-does-not-return/"+c.Client, "%s: the affected call did not return 5 s after its context deadline", where)
 	}
 	wg.Wait()
-	if a.err == nil && a.text != c07ValidText {
-		return Failf("C07/wrong-value/"+c.Client, "%s: the affected call returned %q (neither an error nor the valid answer)", where, a.text)
+	if a.err == nil && a.text != c07ValidTextPad(c.Pad) {
+		return Failf("C07/wrong-value/"+c.Client, "%s: the affected call returned %.200q (neither an error nor the valid answer)", where, a.text)
 	}
 	for i, e := range extra {
 		if e.err != nil || e.text != c07ValidText {
 			f := Failf("C07/other-pending-call-fails/"+c.Client, "%s: pending call %d next to the affected one returned %q / %v", where, i, e.text, e.err)
-			f.Timing = e.err != nil && strings.Contains(e.err.Error(), "deadline")
+			f.Timing = e.err != nil && isTimeoutText(e.err.Error())
 			return f
 		}
 	}
@@ -356,8 +381,8 @@ func runC07WithFake(c C07Case, preset *FakeServer) *Failure {
 	lt, lerr := callEcho(lctx, cl)
 	lcancel()
 	if lerr != nil || lt != c07ValidText {
-		f := Failf("C07/later-call-fails/"+c.Client, "%s: a later well-formed call returned %q / %v (the affected call: %q / %v)", where, lt, lerr, a.text, a.err)
-		f.Timing = lerr != nil && (strings.Contains(lerr.Error(), "deadline") || strings.Contains(lerr.Error(), "timeout"))
+		f := Failf("C07/later-call-fails/"+c.Client, "%s: a later well-formed call returned %q / %v (the affected call: %.100q / %v)", where, lt, lerr, a.text, a.err)
+		f.Timing = lerr != nil && isTimeoutText(lerr.Error())
 		f = classifyC07(c, f)
 		return f
 	}
